@@ -21,12 +21,14 @@ CHECKS = {
         technique="Lean 4 proof (pack/unpack and entry-layout round trips by induction, table facts by kernel evaluation) + differential store histories vs Spec.run",
         text="Lean theorems: C04_pack_unpack (write_n_state then n_state_to_bit_string = id for every kind/width/value), C04_entry_roundtrip and "
              "C04_one_bit_roundtrip (entry built by the loader decodes to the symbols written for every widest-kind x local-kind combination, both meta layouts), "
-             "C04_align_no_underflow, C04_leb_roundtrip, C04_char_faithful / C04_kind_independent_chars over tables regenerated from the code. "
+             "C04_align_no_underflow, C04_leb_roundtrip, C04_char_faithful / C04_kind_independent_chars over tables regenerated from the code; STREAM level: C04_stream_fixed / _onebit / _reals / _strings "
+             "(the payload of one signal in one block — one chunk per change, any number of changes, any deltas below 2^30 — is decoded by load_fixed_len_signal / load_reals / load_signal_strings into exactly those changes at the running time index) and "
+             "C04_encoder_chunk (add_n_bit_change appends exactly such a chunk). "
              "The executable Lean model of Encoder/SignalEncoder/Reader (Model/Store.lean) and the abstract Spec.run are compared with the real store "
              "on generated histories covering every regime of the quantifier (widths, state orders, payload sizes around 32 bytes, 65535-multiples, splits).",
         design_ref="DESIGN.md section 5 / C04",
-        note="Proved: per-value packing and per-entry layout (unbounded). Not proved, validated by the differential run only: the block/stream level "
-             "(LEB delta accumulation across blocks, offsets, compressed flag, append). lz4_flex is not modelled (compress = id in the model; "
+        note="Proved: per-value packing, per-entry layout and the per-block signal stream (unbounded). Not proved, validated by the differential run only: the block level "
+             "(offset table, time-index offsets across blocks, compressed flag, append) and the composition into one refinement theorem Store = Spec.run. lz4_flex is not modelled (compress = id in the model; "
              "the compression decision is an arbitrary predicate). Trusted: Lean kernel, table translator vf/tables.py, harness, generators.",
     ),
     "C02": dict(
@@ -113,7 +115,7 @@ CHECKS = {
         technique="Lean 4 proof (per-bit vector assembly, std_ulogic table, two's complement, enum widths, element labels) + three-way differential: generated GHW files through the real loader, a BYTE-LEVEL Lean model of wellen/src/ghw and the denotation of the abstract design",
         text="Lean theorems C11_set_get (for every vector buffer, bit position and symbol: writing one bit record changes exactly that symbol of the assembled value, in the addressing the renderer and slice_signal use; "
              "byte lemmas by kernel evaluation over all bytes x positions x symbols), C11_lut (STD_LOGIC_LUT = position in the rendering alphabet of GHDL's literal order), C11_int32 (the 8 bytes handed to the encoder end in the "
-             "32-bit two's complement), C11_enum_bits (minimal width), C11_labels / C11_labels_model_eq_spec (elements are labelled left + k / left - k in declaration order). The composition file -> waveform is differential: "
+             "32-bit two's complement), C11_enum_bits (minimal width), C11_labels / C11_labels_model_eq_spec (elements are labelled left + k / left - k in declaration order), C11_delta_cycle / C11_new_time (a step at the current time keeps the time table: its entries carry the same index; a later time appends one entry). The composition file -> waveform is differential: "
              "gen/ghw_writer.py serialises random designs (see evidence rule) and the real loader, the byte-level Lean model (header, directory probe, string / type / WKT / hierarchy sections, type classification, add_var, signal "
              "tracker incl. aliases, VecBuffer, snapshot / cycle sections, store, slices, pointer-level builder) and the design's denotation (atoms -> values, no tables, no packing) must agree on the full dump. "
              "Malformed files and all corpus GHW files: implementation vs model (err / panic / dump).",
